@@ -194,6 +194,9 @@ func scanStream(r *Run) {
 	}
 	enumStrings(scanAlphabet, maxLen, func(s string) { emit(nil, 1, s, "exhaustive") })
 	r.Stats.Notes["exhaustive"] = fmt.Sprintf("all strings of length <= %d over %q", maxLen, scanAlphabet)
+	// raw and comment are lexical (fix raw-comment-lexical): every body of up to k pieces between every kind of
+	// opening tag and end tag, with the default and with custom delimiters
+	scanLexFamily(r.Tier, emit)
 	// harvested templates and mutations
 	g := NewRNG(r.Seed, "scan")
 	tpls := harvestTemplates()
@@ -213,6 +216,40 @@ func scanStream(r *Run) {
 		var delims []string
 		line := g.Intn(4)
 		emit(delims, line, src, kind)
+	}
+}
+
+// scanLexFamily enumerates raw/comment blocks: opening tag x body x what follows the body. The bodies are all
+// sequences of up to 3 (quick) / 4 (thorough) pieces, among them unclosed and unbalanced delimiters, hyphens,
+// newlines and the end-tag names; what follows is an end tag in several spellings, a near miss, or nothing.
+func scanLexFamily(tier string, emit func(delims []string, line int, src, kind string)) {
+	k := 3
+	if tier == "thorough" {
+		k = 4
+	}
+	for _, d := range [][]string{nil, {"<<", ">>", "[", "]"}, {"{", "}", "{%", "%}"}} {
+		ol, or, tl, tr := "{{", "}}", "{%", "%}"
+		if d != nil {
+			ol, or, tl, tr = d[0], d[1], d[2], d[3]
+		}
+		pieces := []string{tl, tr, ol, or, "-", " ", "\n", "a", "endraw", "endcomment"}
+		if d != nil && tier != "thorough" {
+			pieces = []string{tl, tr, ol, " ", "endraw", "-"}
+		}
+		for _, name := range []string{"raw", "comment"} {
+			opens := []string{tl + " " + name + " " + tr, tl + "-" + name + "-" + tr, tl + name + " x" + tr}
+			ends := []string{
+				tl + " end" + name + " " + tr, tl + "-end" + name + "-" + tr + "z", tl + "\n end" + name + "\t" + tr + ol + " y " + or,
+				tl + " end" + name + " x " + tr, tl + " end" + name + "x " + tr + tl + " end" + name + " " + tr, "",
+			}
+			enumStrings(pieces, k, func(body string) {
+				for _, o := range opens {
+					for _, e := range ends {
+						emit(d, 1, "p"+o+body+e, "lex-"+name)
+					}
+				}
+			})
+		}
 	}
 }
 
